@@ -900,6 +900,7 @@ func (e *Exec) bindResults(en *evalEnv, fn *ssa.Function, res []Value) {
 }
 
 func (e *Exec) atReturn(fr *Frame, st *State, res []Value, c *Contract) {
+	e.returnsSeen++
 	for _, h := range e.retHooks {
 		h(e, fr, st, res)
 	}
@@ -914,7 +915,13 @@ func (e *Exec) atReturn(fr *Frame, st *State, res []Value, c *Contract) {
 		e.bindResults(en, fr.fn, res)
 		var asks []*Term
 		en.asks = &asks
-		g := e.evalClause(en, cl)
+		// a clause that names a local which is not in scope at this return does not apply here; it must
+		// apply at one return at least (checked when the function is done)
+		g, ok := e.tryClause(en, cl.Text, cl.Expr)
+		if !ok {
+			continue
+		}
+		e.clauseUsed["ensures:"+clauseName(cl, i)]++
 		e.oblige(st, "post", clauseName(cl, i), g, "", asks...)
 	}
 	if c.Options["frame-arrays"] {
